@@ -308,8 +308,15 @@ pub fn submit(s: &mut Simk, fd: i32, sqe: Sqe) {
             }
             match outcome {
                 CancelOutcome::Cancelled => {
-                    effects::complete(s, target.unwrap(), -libc::ECANCELED, false);
-                    finish_inline(s, id, 0);
+                    // The real kernel posts the two completions in either
+                    // order (the target's goes through task work).
+                    if s.rng.chance(1, 2) {
+                        effects::complete(s, target.unwrap(), -libc::ECANCELED, false);
+                        finish_inline(s, id, 0);
+                    } else {
+                        finish_inline(s, id, 0);
+                        effects::complete(s, target.unwrap(), -libc::ECANCELED, false);
+                    }
                 }
                 CancelOutcome::NotFound => finish_inline(s, id, -libc::ENOENT),
                 CancelOutcome::Already => finish_inline(s, id, -libc::EALREADY),
@@ -354,7 +361,8 @@ pub fn do_msg_ring(s: &mut Simk, sqe: &Sqe) -> i32 {
         return -libc::EINVAL;
     }
     if !s.rings.contains_key(&target) {
-        return -libc::EBADFD;
+        let open = crate::mon::fds::state(target).is_some_and(|st| st.closes.is_empty()) || crate::mon::fds::os_open(target);
+        return if open { -libc::EBADFD } else { -libc::EBADF };
     }
     if s.rings[&target].disabled {
         return -libc::EBADFD;
@@ -443,7 +451,12 @@ enum Step {
 
 fn enter_step(s: &mut Simk, fd: i32, to_submit: u32, min_complete: u32, flags: u32, has_timeout: bool, first: bool) -> Step {
     if !s.rings.contains_key(&fd) {
-        return Step::Done(-libc::EBADF);
+        // An open descriptor that is not a ring vs. no descriptor at all.
+        let open = crate::mon::fds::state(fd).is_some_and(|st| st.closes.is_empty()) || crate::mon::fds::os_open(fd);
+        return Step::Done(if open { -libc::EOPNOTSUPP } else { -libc::EBADF });
+    }
+    if first && flags & !ENTER_KNOWN != 0 {
+        return Step::Done(-libc::EINVAL);
     }
     if first {
         if let Some(e) = s.knobs.enter_errnos.pop_front() {
@@ -456,7 +469,10 @@ fn enter_step(s: &mut Simk, fd: i32, to_submit: u32, min_complete: u32, flags: u
         if ring.disabled {
             return Step::Done(-libc::EBADFD);
         }
-        if ring.single_issuer() {
+        // Only submitting (and, with deferred task work, waiting) is reserved
+        // to the issuer thread.
+        let reserved = to_submit > 0 || (ring.flags & SETUP_DEFER_TASKRUN != 0 && flags & ENTER_GETEVENTS != 0);
+        if ring.single_issuer() && reserved {
             if let Some(owner) = ring.owner_thread {
                 if owner != thread_id() {
                     return Step::Done(-libc::EEXIST);
